@@ -72,8 +72,8 @@ UNIT['functions'] = {
                     ['__CPROVER_is_fresh(%s.second.forRuleInfo, sizeof(struct BuildEngineImpl_RuleInfo))' % (T % i) for i in range(NT)] +
                     ['(%s.second.forRuleInfo->state == %sInProgressWaiting || %s.second.forRuleInfo->state == %sInProgressComputing)' % (T % i, S, T % i, S) for i in range(NT)] +
                     ['%s.second.state >= 0 && %s.second.state <= 6' % (R % i, R % i) for i in range(NR)] +
-                    ['self->finishedTaskInfos.len <= self->numOutstandingUnfinishedTasks', '!self->finishedTaskInfosMutex.held && !self->taskInfosMutex.held && !self->inputRequestsMutex.held', 'g_k < %d' % NT, 'g_waits == 0'],
-        'assigns': ['self->numOutstandingUnfinishedTasks', 'self->finishedTaskInfosMutex.held', 'self->taskInfosMutex.held', 'self->inputRequestsMutex.held', 'self->taskInfos.len', 'g_waits'] +
+                    ['self->finishedTaskInfos.len <= self->numOutstandingUnfinishedTasks', 'self->numOutstandingUnfinishedTasks == self->finishedTaskInfos.len + g_running', '!self->finishedTaskInfosMutex.held && !self->taskInfosMutex.held && !self->inputRequestsMutex.held', 'g_k < %d' % NT, 'g_waits == 0'],
+        'assigns': ['self->numOutstandingUnfinishedTasks', 'self->finishedTaskInfosMutex.held', 'self->taskInfosMutex.held', 'self->inputRequestsMutex.held', 'self->taskInfos.len', 'g_waits', 'g_running'] +
                    ['self->%s.len' % q for q in QUEUES] + ['__CPROVER_object_whole(self->finishedTaskInfos.ptr)'] +
                    ['%s.second.forRuleInfo->state' % (T % i) for i in range(NT)] + ['%s.second.forRuleInfo->inProgressInfo' % (T % i) for i in range(NT)] +
                    ['%s.second.forRuleInfo->result.builtAt' % (T % i) for i in range(NT)] + ['%s.second.state' % (R % i) for i in range(NR)],
@@ -89,11 +89,14 @@ UNIT['functions'] = {
             ('P:C05', '(g_k < self->ruleInfos.len && OLD(self->ruleInfos.ptr[g_k].second.state) == %sIsScanning) ==> self->ruleInfos.ptr[g_k].second.state == %sIncomplete' % (S, S)),
             ('P:C05', '(g_k < self->ruleInfos.len && OLD(self->ruleInfos.ptr[g_k].second.state) != %sIsScanning) ==> self->ruleInfos.ptr[g_k].second.state == OLD(self->ruleInfos.ptr[g_k].second.state)' % S),
             ('P:C05,P:C06', '!self->finishedTaskInfosMutex.held && !self->taskInfosMutex.held && !self->inputRequestsMutex.held'),
+            # no completion is lost or counted twice by the drain: it returns exactly when every outstanding task has reported
+            ('P:C06,P:C05', 'g_running == 0'),
         ],
         'loops': {
             # the drain loop: partial correctness only (its termination depends on other threads reporting: liveness, not decided)
-            0: {'assigns': ['self->numOutstandingUnfinishedTasks', 'self->finishedTaskInfos.len', '__CPROVER_object_whole(self->finishedTaskInfos.ptr)', 'self->finishedTaskInfosMutex.held', 'g_waits'],
-                'invariant': ['self->finishedTaskInfos.len <= self->numOutstandingUnfinishedTasks && self->finishedTaskInfos.len <= self->finishedTaskInfos.cap && !self->finishedTaskInfosMutex.held']},
+            0: {'assigns': ['self->numOutstandingUnfinishedTasks', 'self->finishedTaskInfos.len', '__CPROVER_object_whole(self->finishedTaskInfos.ptr)', 'self->finishedTaskInfosMutex.held', 'g_waits', 'g_running'],
+                # the counter always equals the completions queued plus the tasks still running, however the completions are batched
+                'invariant': ['self->numOutstandingUnfinishedTasks == self->finishedTaskInfos.len + g_running', 'self->finishedTaskInfos.len <= self->numOutstandingUnfinishedTasks && self->finishedTaskInfos.len <= self->finishedTaskInfos.cap && !self->finishedTaskInfosMutex.held']},
             1: {'assigns': ['__i1'] + ['%s.second.forRuleInfo->state' % (T % i) for i in range(NT)] + ['%s.second.forRuleInfo->inProgressInfo' % (T % i) for i in range(NT)] +
                            ['%s.second.forRuleInfo->result.builtAt' % (T % i) for i in range(NT)],
                 'invariant': ['__i1 <= __range1->len && self->taskInfosMutex.held',
@@ -114,7 +117,7 @@ UNIT['functions']['BuildEngineImpl::executeTasks#wait'] = {
     'segment': {'kind': 'IfStmt', 'mentions': ['didWork', 'numOutstandingUnfinishedTasks', 'finishedTaskInfosCondition']},
     'requires': ['__CPROVER_is_fresh(self, sizeof(*self))', 'g_engine == self', '__CPROVER_is_fresh(didWork, sizeof(*didWork))',
                  'VEC_OK(self->finishedTaskInfos, struct BuildEngineImpl_TaskInfo *)', '!self->finishedTaskInfosMutex.held', 'g_waits == 0'],
-    'assigns': ['*didWork', 'self->finishedTaskInfosMutex.held', 'self->finishedTaskInfos.len', 'g_waits'],
+    'assigns': ['*didWork', 'self->finishedTaskInfosMutex.held', 'self->finishedTaskInfos.len', 'g_waits', 'g_running'],
     'ensures': [
         # with computing tasks outstanding and nothing else done, the loop goes round again after blocking (or after finding
         # completions already queued): a task that is still computing is never mistaken for a dependency cycle
